@@ -10,7 +10,7 @@ import (
 
 // Verification hook (build tag verif): re-exports existing identifiers only.
 
-func VerifAssembleDepositSweepTransaction(
+func VerifC26AssembleDepositSweepTransaction(
 	bitcoinChain bitcoin.Chain,
 	walletPublicKey *ecdsa.PublicKey,
 	walletMainUtxo *bitcoin.UnspentTransactionOutput,
@@ -22,9 +22,9 @@ func VerifAssembleDepositSweepTransaction(
 	)
 }
 
-// VerifAssembleRedemptionTransaction uses the fee distribution of the real
+// VerifC26AssembleRedemptionTransaction uses the fee distribution of the real
 // redemption action: withRedemptionTotalFee(totalFee).
-func VerifAssembleRedemptionTransaction(
+func VerifC26AssembleRedemptionTransaction(
 	bitcoinChain bitcoin.Chain,
 	walletPublicKey *ecdsa.PublicKey,
 	walletMainUtxo *bitcoin.UnspentTransactionOutput,
@@ -38,14 +38,14 @@ func VerifAssembleRedemptionTransaction(
 	)
 }
 
-func VerifRedemptionFeeShares(
+func VerifC26RedemptionFeeShares(
 	totalFee int64,
 	requests []*RedemptionRequest,
 ) []int64 {
 	return withRedemptionTotalFee(totalFee)(requests)
 }
 
-func VerifAssembleMovingFundsTransaction(
+func VerifC26AssembleMovingFundsTransaction(
 	bitcoinChain bitcoin.Chain,
 	walletMainUtxo *bitcoin.UnspentTransactionOutput,
 	targetWallets [][20]byte,
@@ -56,7 +56,7 @@ func VerifAssembleMovingFundsTransaction(
 	)
 }
 
-func VerifAssembleMovedFundsSweepTransaction(
+func VerifC26AssembleMovedFundsSweepTransaction(
 	bitcoinChain bitcoin.Chain,
 	walletPublicKey *ecdsa.PublicKey,
 	movedFundsUtxo *bitcoin.UnspentTransactionOutput,
